@@ -6,6 +6,12 @@ VERIF = os.path.dirname(os.path.dirname(os.path.abspath(__file__)))
 ALL = [f"C{i:02d}" for i in range(1, 21)]
 
 CLAIMED = {
+    "C02": dict(
+        technique="Coq proofs: reference semantics = sum over all derivation trees (complete, duplicate-free enumeration), CKY = reference on CNF, permutation/renaming invariance, regenerated agenda-priority lemmas; vm_compute correspondence of every parser entry point against the proved reference",
+        text="The derivation sum W is proved (any commutative semiring, any grammar) to be the sum over a sound, complete, duplicate-free enumeration of derivation trees; the executable tabulation used for the correspondence is proved equal to W; CKY on CNF is proved equal to W; W is proved invariant under rule permutation and injective renaming; the agenda priorities of both Earley parsers are regenerated from source and proved to pop contributors first. cfg(xs), Earley, IncrementalCKY, rescaled Earley and materialize are compared with the proved reference on generated grammars (exact rationals, Booleans incl. cyclic grammars, floats on convergent cyclic grammars) under rule permutation, renaming and several hash seeds.",
+        note="Partial: Earley's functional correctness and the CNF pipeline are tied to the reference by correspondence only (mechanism theorem = priority order); cyclic non-Boolean grammars only by float comparison with the Kleene limit. Trusted: Coq kernel, translators, harness.",
+        design="§4 C02",
+    ),
     "C16": dict(
         technique="Coq proofs (ring/field/lra over R) about definitions regenerated from semiring.py by a fail-closed ast translator; vm_compute differential run of the Qc instantiation",
         text="All semiring laws and the star unfolding laws are proved in Coq for every value of each class' domain, about operator definitions that are regenerated from genlm/grammar/semiring.py on every run; the rational instantiation of the same generated text is executed against the Python classes. A law-breaking edit makes a proof fail (or the translator refuse) and the Python law oracle then supplies the failing triple.",
